@@ -290,6 +290,16 @@ CLAIMS = {
             "token is written only under an emptiness test of the value",
             "equality of the parsed values themselves (trimming, one-element lists, empty values) is runtime",
             "§8.6 (added after the design: C39 was first declared not applicable)"),
+    "C17": ("finite-world interpretation of the export gates and predicates, must-non-null dataflow at the sites that mark "
+            "a declaration public, who-may-write rule, and set-complement discipline (key agreement, alias closure, filter "
+            "equality, control dependence) of the two unreferenced-symbol functions",
+            "a declaration is exposed in the interface only with a public symbol of the right kind attached (R-EXPGATE, "
+            "R-PUBSYM, R-EXPORTEDPRED), and the symbols not referenced by debug info are the complement - over the same "
+            "filter as the corpus' symbol table - of the symbols and aliases of the exposed declarations (R-UNREF): no "
+            "symbol can be both or neither because of the bookkeeping",
+            "which declaration the debug info attaches to which symbol (addresses, linkage names, DWARF) is runtime; "
+            "the CTF reader is not in this build",
+            "§8.6 (added after the design: C17 was first declared not applicable)"),
     "C18": ("finite-world abstract interpretation of the selection predicates and table extraction from the conversion "
             "switches (AST/CFG), composed across elf-helpers, symtab-reader, ir, corpus and writer",
             "which ELF symbols become entries of the two symbol tables and under which type / binding / visibility word: "
@@ -317,7 +327,6 @@ CLAIMS = {
 NOT_APPLICABLE = {
     "C15": "values decoded from DWARF by elfutils and interpreted by the reader; the oracle is a compiler, nothing static bounds it",
     "C16": "values decoded from DWARF (signatures) against source; runtime oracle",
-    "C17": "partition between symtab and DWARF-attached symbols is a runtime association; a shape proxy would be a frozen fragment",
     "C20": "canonicalisation vs structural equality needs the runtime type graphs",
     "C26": "set relation over runtime artifacts (types by declaration location)",
     "C35": "generic memory safety / UB of 120 kLOC has no repo-specific structural rule; sanitizers are a dynamic technique",
